@@ -123,10 +123,21 @@ def fam_dista(rng, exact):
                 if rng.random() < 0.25:
                     X[i][c] = Y[rng.randrange(sy[0])][c]
     special = None
-    if not exact and not ints and rng.random() < 0.08 and len(sx) == 2 and sx[0] and sx[1]:
-        special = rng.choice(["inf", "huge", "nan"])
+    if not exact and not ints and rng.random() < 0.12 and len(sx) == 2 and sx[0] and sx[1]:
+        special = rng.choice(["inf", "huge", "nan", "tiny", "tiny"])
         i0 = rng.randrange(sx[0])
-        X[i0][rng.randrange(sx[1])] = {"inf": INF, "huge": 1e200 * rng.choice([1, -1]), "nan": float("nan")}[special]
+        if special == "tiny":
+            # a coordinate difference that is non-zero but whose p-th power underflows, beside ordinary ones, through
+            # every calling form (the float-range stream c18r.py covers the documented forms scale-free)
+            c0 = rng.randrange(sx[1])
+            tiny = lambda: rng.choice([1, -1]) * 10.0 ** rng.uniform(-320, -60)
+            X[i0][c0] = tiny()
+            if not same and len(sy) == 2 and sy[1] == sx[1]:
+                for j in range(sy[0]):
+                    if rng.random() < 0.7:
+                        Y[j][c0] = rng.choice([0.0, tiny()])
+        else:
+            X[i0][rng.randrange(sx[1])] = {"inf": INF, "huge": 1e200 * rng.choice([1, -1]), "nan": float("nan")}[special]
         if special == "huge" and rng.random() < 0.7:
             X[i0][rng.randrange(sx[1])] = 1e200 * rng.choice([1, -1, 0.5])       # often a second huge coordinate in the same point
     xf = np.asarray(X, dtype=float).ravel().tolist(); yf = np.asarray(Y, dtype=float).ravel().tolist()
@@ -191,7 +202,7 @@ def fam_dista(rng, exact):
         # monitor: the textbook distance per pair of points, for the documented forms
         cells = None
         pts = lambda v, s: [v] if len(s) == 1 else v
-        if special in (None, "huge") and len(sx) >= 1 and len(sy) >= 1 and (sx[-1] == sy[-1]) and sx[-1] >= 1:
+        if special in (None, "huge", "tiny") and len(sx) >= 1 and len(sy) >= 1 and (sx[-1] == sy[-1]) and sx[-1] >= 1:
             PX = pts(X, sx); PY = pts(Y, sy)
             k = max(len(sx), len(sy), dmin)
             if k == 2 and not pair and axis in (0, -3):
@@ -214,6 +225,13 @@ def fam_dista(rng, exact):
                     if not good and special == "huge" and rel == "pow" and (v == v) and abs(v) != INF:
                         # an overflowing power: the documented answer is the infinity norm (l.187 "use the infinity norm")
                         good = b.q_close(Fr(v), q_metric("chebyshev", p, a_, b_)[1], scale)
+                        import c18r
+                        if good and c18r.overflow_state(c18r.cell_terms(a_, b_), p) == "no":
+                            # ... of THIS pair of points; the fall-back replaces the whole array (finding F66)
+                            mon.append(("minkowski/definition/overflow-of-another-cell", "%s(%r, %r%s) = %r: the infinity norm of this pair "
+                                        "(its own powers do not overflow; another pair of the same call does) (pair=%r dmin=%r axis=%r)" % (
+                                            kind, a_, b_, (", p=%s" % p) if kind == "minkowski" else "", v, pair, dmin, axis)))
+                            break
                     if not good:
                         mon.append(("%s/definition" % kind, "%s(%r, %r%s) = %r (pair=%r dmin=%r axis=%r%s)" % (
                             kind, a_, b_, (", p=%s" % p) if kind == "minkowski" else "", v, pair, dmin, axis, ", integer-typed" if ints else "")))
